@@ -107,6 +107,15 @@ def distribute(
                 )
                 break
 
+    # Computations pinned by a zero hosting cost also use their agent's capacity
+    for agent in agentsdef:
+        pinned = sum(f for a, f in fixed_mapping.values() if a == agent.name)
+        if pinned > agent.capacity:
+            raise ImpossibleDistributionException(
+                f"Impossible Distribution, computations with hosting cost 0 on "
+                f"{agent.name} exceed its capacity: {pinned} > {agent.capacity}"
+            )
+
     # Sort computation by footprint, but add a random element to avoid sorting on names
     computations = [
         (computation_memory(n), n, None, random.random())
